@@ -17,7 +17,7 @@ VERIF = os.path.dirname(os.path.dirname(os.path.abspath(__file__)))
 NEIGHBOURS = {
     "C01": ["C05", "C17"], "C02": ["C05", "C14", "C03", "C01", "C06"], "C03": ["C01", "C17", "C08"], "C04": ["C03"], "C05": ["C01"],
     "C06": ["C09"], "C07": ["C08"], "C08": ["C07"], "C09": ["C06"], "C10": ["C19", "C06"], "C11": ["C01", "C05"],
-    "C12": ["C05"], "C13": [], "C14": ["C07"], "C15": ["C07", "C14"], "C16": ["C14", "C05"], "C17": ["C01"],
+    "C12": ["C05"], "C13": [], "C14": ["C07"], "C15": ["C07", "C14"], "C16": ["C14", "C05"], "C17": ["C01", "C16"],
     "C18": [], "C19": ["C10"], "C20": ["C13"],
 }
 
